@@ -6,6 +6,7 @@ UN = "src/allmydata/unknown.py"
 MF = "src/allmydata/mutable/filenode.py"
 IF = "src/allmydata/immutable/filenode.py"
 HU = "src/allmydata/util/hashutil.py"
+BL = "src/allmydata/blacklist.py"
 
 MUTANTS = [
     # ---- C18.1 decrypt only when writeable
@@ -166,7 +167,66 @@ MUTANTS = [
     M("ifexp-rw-slot-falls-back-to-ro", D,
       "            rw_uri = rw_uri.rstrip(b' ') or None\n",
       "            rw_uri = (rw_uri.rstrip(b' ') or None) if writeable else (ro_uri or None)\n", "C18.1"),
+    # ---- C18.9 what a node answers for its (clear) read-only slot
+    M("prohibited-readonly-uri-is-full-cap", BL,
+      "    def get_readonly_uri(self):\n        return self.wrapped_node.get_readonly_uri()\n",
+      "    def get_readonly_uri(self):\n        return self.wrapped_node.get_uri()\n", "C18.9",
+      note="seeded C18-D: a blacklisted writeable child is packed with its write cap in the ro_uri slot"),
+    M("prohibited-readonly-uri-aliased", BL,
+      "    def get_readonly_uri(self):\n        return self.wrapped_node.get_readonly_uri()\n",
+      "    get_readonly_uri = get_uri\n", "C18.9",
+      note="same effect without a return statement to look at: the method is an alias of get_uri"),
+    M("prohibited-readonly-uri-from-cap", BL,
+      "    def get_readonly_uri(self):\n        return self.wrapped_node.get_readonly_uri()\n",
+      "    def get_readonly_uri(self):\n        return self.get_cap().to_string()\n", "C18.9"),
+    M("dirnode-readonly-uri-undiminished", D,
+      "    def get_readonly_uri(self):\n        return self._uri.get_readonly().to_string()\n",
+      "    def get_readonly_uri(self):\n        return self._uri.to_string()\n", "C18.9",
+      note="sibling site: a writeable subdirectory would be linked with its write cap in clear"),
+    M("mutable-readonly-uri-gate-flipped", MF,
+      "    def get_readonly_uri(self):\n        return self._uri.get_readonly().to_string()\n",
+      "    def get_readonly_uri(self):\n        if not self.is_readonly():\n            return self._uri.to_string()\n"
+      "        return self._uri.get_readonly().to_string()\n", "C18.9"),
+    M("mutable-readonly-uri-ifexp-wrong-branch", MF,
+      "    def get_readonly_uri(self):\n        return self._uri.get_readonly().to_string()\n",
+      "    def get_readonly_uri(self):\n        u = self._uri\n"
+      "        return u.get_readonly().to_string() if u.is_readonly() else u.to_string()\n", "C18.9"),
+    M("dirnode-readonly-uri-through-undiminished-readcap", D,
+      "    def get_readonly_uri(self):\n        return self._uri.get_readonly().to_string()\n",
+      "    def get_readonly_uri(self):\n        return self.get_readcap().to_string()\n", "C18.9",
+      edits=[(D, "    def get_readcap(self):\n        return self._uri.get_readonly()\n",
+              "    def get_readcap(self):\n        return self._uri\n")]),
+    M("unknown-readonly-uri-falls-back-to-rw", UN,
+      "    def get_readonly_uri(self):\n        return self.ro_uri\n",
+      "    def get_readonly_uri(self):\n        return self.ro_uri or self.rw_uri\n", "C18.9",
+      note="an unknown child given only in the rw slot would be stored in clear"),
     # ---- benign
+    M("benign-readonly-uri-into-temp", MF,
+      "    def get_readonly_uri(self):\n        return self._uri.get_readonly().to_string()\n",
+      "    def get_readonly_uri(self):\n        ro = self._uri.get_readonly()\n        return ro.to_string()\n", None),
+    M("benign-readonly-uri-own-cap-when-readonly", MF,
+      "    def get_readonly_uri(self):\n        return self._uri.get_readonly().to_string()\n",
+      "    def get_readonly_uri(self):\n        if self.is_readonly():\n            return self._uri.to_string()\n"
+      "        return self._uri.get_readonly().to_string()\n", None),
+    M("benign-readonly-uri-ifexp", MF,
+      "    def get_readonly_uri(self):\n        return self._uri.get_readonly().to_string()\n",
+      "    def get_readonly_uri(self):\n        u = self._uri\n"
+      "        return u.to_string() if u.is_readonly() else u.get_readonly().to_string()\n", None),
+    M("benign-readonly-uri-through-readcap", D,
+      "    def get_readonly_uri(self):\n        return self._uri.get_readonly().to_string()\n",
+      "    def get_readonly_uri(self):\n        return self.get_readcap().to_string()\n", None),
+    M("benign-prohibited-readonly-uri-local", BL,
+      "    def get_readonly_uri(self):\n        return self.wrapped_node.get_readonly_uri()\n",
+      "    def get_readonly_uri(self):\n        node = self.wrapped_node\n        ro = node.get_readonly_uri()\n"
+      "        return ro\n", None),
+    M("benign-immutable-readonly-uri-alias", IF,
+      "    def get_readonly_uri(self):\n        return self.get_uri()\n\n    def get_uri(self):\n"
+      "        return self.u.to_string()\n",
+      "    def get_uri(self):\n        return self.u.to_string()\n\n    get_readonly_uri = get_uri\n", None,
+      note="an immutable file node is read-only by construction: its cap is its read cap"),
+    M("vanish-prohibited-readonly-uri", BL,
+      "    def get_readonly_uri(self):\n        return self.wrapped_node.get_readonly_uri()\n",
+      "    def get_readonly_uri_(self):\n        return self.wrapped_node.get_readonly_uri()\n", "ANALYSIS-ERROR"),
     M("benign-new-directory-nested-def", NM,
       "        d = self.create_mutable_file(lambda n:\n"
       "                                     MutableData(pack_children(initial_children,\n"
